@@ -111,6 +111,8 @@ class PSFModelMachine(Machine):
         ovs = cfg['oversampling']
         if isinstance(ovs, list):
             ovs = tuple(ovs)
+        if attrs.get('ovs') is not None:
+            ovs = tuple(attrs['ovs'])
         if self.variant == 'image':
             from photutils.psf import ImagePSF
             return ImagePSF(dec(sc['data']).copy(), flux=params['flux'],
@@ -152,7 +154,7 @@ class PSFModelMachine(Machine):
             st.yg = np.unique(pos[:, 1])
         st.scale = float(np.max(np.abs(data)))
         params = {'flux': 1.0, 'x_0': 0.0, 'y_0': 0.0}
-        attrs = {'fill_value': cfg['fill_value']}
+        attrs = {'fill_value': cfg['fill_value'], 'ovs': list(st.ovs)}
         if self.variant == 'image':
             attrs['origin'] = st.scene.get('origin')
         m = call(self._build, st, params, attrs)
@@ -169,6 +171,21 @@ class PSFModelMachine(Machine):
         k = rng.randrange(len(st.actors))
         a = st.actors[k]
         r = rng.random()
+        if r < 0.06:
+            names = ['fill_value']
+            if self.variant == 'gridded':
+                names += ['oversampling', 'oversampling']
+            else:
+                names += ['origin']
+            nm = rng.pick(names)
+            if nm == 'fill_value':
+                val = rng.pick([0.0, None, -1.0, 2.5])
+            elif nm == 'oversampling':
+                val = rng.pick([1, 2, 3, [2, 3], 4])
+            else:
+                val = rng.pick([None, [rng.uniform(1, st.nx - 2),
+                                       rng.uniform(1, st.ny - 2)]])
+            return {'op': 'setattr', 'actor': k, 'name': nm, 'value': val}
         if r < 0.30:
             return self._gen_set(rng, st, k)
         if r < 0.80:
@@ -226,7 +243,7 @@ class PSFModelMachine(Machine):
         n = op['n']
         kind = op['grid']
         jx, jy = op['jit']
-        oy, ox = st.ovs
+        oy, ox = a.a.get('ovs') or st.ovs
         if self.variant == 'image' and a.a.get('origin') is not None:
             orx, ory = a.a['origin']
         else:
@@ -263,7 +280,7 @@ class PSFModelMachine(Machine):
         x = np.asarray(x, dtype=float)
         y = np.asarray(y, dtype=float)
         x0, y0, flux = a.p['x_0'], a.p['y_0'], a.p['flux']
-        oy, ox = st.ovs
+        oy, ox = a.a.get('ovs') or st.ovs
         if self.variant == 'image' and a.a.get('origin') is not None:
             orx, ory = a.a['origin']
         else:
@@ -328,6 +345,29 @@ class PSFModelMachine(Machine):
             if isinstance(out, Raised):
                 raise Violation('raises', 'set_' + nm, repr(out))
             return
+        if kind == 'setattr':
+            nm, v = op['name'], op['value']
+            if nm == 'oversampling' and self.variant != 'gridded':
+                raise Inapplicable(nm)
+            if nm == 'origin' and self.variant != 'image':
+                raise Inapplicable(nm)
+            a.a = dict(a.a)
+            if nm == 'oversampling':
+                out = call(setattr, m, 'oversampling',
+                           tuple(v) if isinstance(v, list) else v)
+                a.a['ovs'] = list(v) if isinstance(v, list) else [v, v]
+            elif nm == 'origin':
+                out = call(setattr, m, 'origin', v)
+                a.a['origin'] = v
+            else:
+                out = call(setattr, m, 'fill_value', v)
+                a.a['fill_value'] = v
+            if isinstance(out, Raised):
+                raise Violation('raises', 'set_' + nm, repr(out))
+            st.stats.probe('attribute_assigned')
+            if len(st.actors) > 1:
+                st.stats.probe('attribute_assigned_in_family')
+            return
         if kind in ('copy', 'deepcopy'):
             c = call(getattr(m, kind))
             if isinstance(c, Raised):
@@ -343,7 +383,7 @@ class PSFModelMachine(Machine):
             bb = call(lambda: m.bounding_box)
             if isinstance(bb, Raised):
                 raise Violation('raises', 'bounding_box', repr(bb))
-            oy, ox = st.ovs
+            oy, ox = a.a.get('ovs') or st.ovs
             dx, dy = st.nx / 2 / ox, st.ny / 2 / oy
             xs = ys = 0.0
             if self.variant == 'image' and a.a.get('origin') is not None:
